@@ -284,6 +284,12 @@ Section Obj.
   (* the pickled state: fields, _lt, _is_task, cache_key, _results_map=None *)
   Record pstate := { ps_val : value; ps_key : str }.
   Definition getstate (o : tobj) : pstate := {| ps_val := o_val o; ps_key := o_key o |}.
+  (* what else travels in the pickled state: the context / result_meta the object carried when it was pickled *)
+  Definition getstate_extras (g : getstate_mode) (o : tobj) : option nat * option nat :=
+    match g with
+    | GSWhitelist => (None, None)
+    | _ => (o_context o, o_result_meta o)
+    end.
   Definition renorm (v : value) : option value :=
     match v with
     | VTask c fs => option_map (VTask c)
